@@ -752,6 +752,8 @@ pub fn encode(book: &MBook, ch: &XlsxChoices, rng: &mut Rng) -> Encoded {
     }
     if ch.extras {
         wb.push_str(&format!("<{} calcId=\"191029\"/>", e.q("calcPr")));
+        // what Excel 2013+ writes: another element whose local name is workbookPr
+        wb.push_str(&format!("<{0}><{1} uri=\"{{140A7094-0E35-4892-8432-C4D2E57EDEB5}}\" xmlns:x15=\"http://schemas.microsoft.com/office/spreadsheetml/2010/11/main\"><x15:workbookPr chartTrackingRefBase=\"1\"/></{1}></{0}>", e.q("extLst"), e.q("ext")));
     }
     wb.push_str(&format!("{}</{}>", e.nl(), e.q("workbook")));
     parts.push(Part::new(&case("xl/workbook.xml", ch.name_case), wb.into_bytes()));
